@@ -207,13 +207,9 @@ func (t *Indexer) GetBlockHeaderByHeight(height uint64) (*lib.BlockResult, lib.E
 		return nil, err
 	}
 	// get block from hash key
-	block, err := t.getBlock(hashKey, false)
-	if err != nil {
-		return nil, err
-	}
-	// populate cache on read so historical blocks are warm after a restart
-	blockCache.Add(height, block)
-	return block, nil
+	// (not added to the block cache: the cache is keyed by height only and GetBlockByHeight() / GetQCByHeight() expect the
+	// full block result there - a header-only entry would make them return the block without its transactions)
+	return t.getBlock(hashKey, false)
 }
 
 // GetBlocks() returns a page of blocks based on the page parameters
